@@ -235,6 +235,7 @@ func mentions(f *Term, root types.Object, path []string) bool {
 type termBuilder struct {
 	info  *types.Info
 	inl   map[types.Object]ast.Expr // single-assignment locals with a pure definition
+	sub   map[types.Object]*Term    // parameters of an inlined helper -> the caller's argument terms
 	depth int
 	fset  *token.FileSet
 }
@@ -326,6 +327,9 @@ func (b *termBuilder) term(e ast.Expr) *Term {
 		case *types.Var:
 			if o.Pkg() != nil && o.Parent() == o.Pkg().Scope() {
 				return mk("const", objQual(o)) // package-level variable: named by identity
+			}
+			if t, ok := b.sub[o]; ok {
+				return t
 			}
 			if def, ok := b.inl[o]; ok && b.depth < 6 {
 				b.depth++
